@@ -5,7 +5,12 @@
 //!   (wanm variant <structure> game)                                  -> (ok x<bytes>)    | (err class) | (panic file msg)
 //!   (wranm variant <structure> game)      oracle: written structure read back == requested, up to the normalisations of
 //!                                         the Lean theorem `anm_read_write`; every other difference is a failure
-//!   (anmsrc game source)                  oracle: what a source asks for is what a reader of the compiled file sees
+//!   (anmsrc game source [kind])           oracle: what a source asks for is what a reader of the compiled file sees; a source
+//!                                         with an unrepresentable request of `kind` (1 path_2, 2 offset_x/offset_y/low_res_scale,
+//!                                         3 colorkey where the layout has no field, 4 image beyond 16 bits) must be rejected
+//!                                         with the matching diagnostic (db48965 / 9635fc8); a silent drop / narrowing that comes
+//!                                         back is reported under the old signatures
+//!   (anmwide game width height)           oracle: an image FILE of that size as image source: stored as asked (<= 65535) or rejected
 //!
 //! variant = container version of the game (v0 v2 v3 v4 v7 v8; the harness' own table).  Structure:
 //!   (anm (e (specs rt_width rt_height rt_format colorkey offset_x offset_y memory_priority low_res_scale) x<path> x<path_2>|none
@@ -252,6 +257,8 @@ pub fn anm_err_class(diags: &str) -> String {
     let line = diags.lines().find(|l| l.starts_with("error")).unwrap_or("");
     const TABLE: &[(&[&str], &str)] = &[
         (&["too large for this version of the ANM format"], "too large for this version of the ANM format"),
+        (&["cannot be stored in this version of the ANM format"], "cannot be stored in this version of the ANM format"),
+        (&["too large for an embedded image"], "too large for an embedded image"),
         (&["inconsistency between thtx_offset and has_data/name"], "inconsistency between thtx_offset and has_data/name"),
         (&["loop in entries"], "loop in entries"),
     ];
@@ -412,15 +419,96 @@ pub fn eval_anmsrc(case: &Sexp) -> Sexp {
         let bytes = write_anm(truth, game, &compiled)?;
         Ok((st, bytes))
     });
+    // an unrepresentable request (kinds 1-4; 0 and 5 are the two open findings, -1 = none) must end in its diagnostic
+    let kind = a.get(2).map(|k| k.as_i64()).unwrap_or(-1);
+    let expected = match kind { 1 | 2 | 3 => Some("cannot be stored in this version of the ANM format"), 4 => Some("too large for an embedded image"), _ => None };
     let (st, bytes) = match out.value {
         Some(v) => v,
-        None => return if out.has_error_diag() { Sexp::app("rejected", vec![Sexp::str(crate::util::diag_class(&out.diagnostics))]) } else { super::fail("compile-fails-without-error-diagnostic", format!("anm {game}")) },
+        None => return if !out.has_error_diag() { super::fail("compile-fails-without-error-diagnostic", format!("anm {game}")) }
+            else { Sexp::app("rejected", vec![Sexp::str(anm_err_class(&out.diagnostics)), Sexp::atom(if expected.map_or(true, |n| out.diagnostics.contains(n)) { "as-expected" } else { "other-diagnostic" })]) },
     };
     if unbuildable(&st).is_none() {
         let again = tc::with_truth(Format::Anm, game, &[], |truth| { let f = build_anm(truth, game, &st)?; write_anm(truth, game, &f) });
         if again.value.as_deref() != Some(&bytes[..]) { return super::fail("harness-self-check: rebuilt structure is written differently", format!("{game}: {}", clip(format!("{st}")))); }
     }
-    judge_roundtrip(game, &st, &bytes)
+    let r = judge_roundtrip(game, &st, &bytes);
+    // accepted although unrepresentable: the round trip names what was dropped / narrowed (the signatures of the repaired
+    // findings); if it even passes, the request was not honoured in some way the comparison does not see
+    if expected.is_some() && r.head() == Some("pass") { return super::fail(format!("unrepresentable-request-accepted anm kind-{kind}"), format!("{game}: compiled without a diagnostic")); }
+    r
+}
+
+// --- an image file wider / taller than the 16-bit THTX fields (the one way to `write_texture` with such metadata) ----
+
+fn crc32(data: &[u8]) -> u32 {
+    let mut c = 0xFFFF_FFFFu32;
+    for &b in data { c ^= b as u32; for _ in 0..8 { c = if c & 1 != 0 { 0xEDB8_8320 ^ (c >> 1) } else { c >> 1 }; } }
+    !c
+}
+fn adler32(data: &[u8]) -> u32 {
+    let (mut a, mut b) = (1u32, 0u32);
+    for &x in data { a = (a + x as u32) % 65521; b = (b + a) % 65521; }
+    (b << 16) | a
+}
+fn png_chunk(out: &mut Vec<u8>, kind: &[u8; 4], data: &[u8]) {
+    out.extend_from_slice(&(data.len() as u32).to_be_bytes());
+    let mut body = kind.to_vec(); body.extend_from_slice(data);
+    out.extend_from_slice(&body);
+    out.extend_from_slice(&crc32(&body).to_be_bytes());
+}
+/// RGBA8 PNG of one colour, filter 0, stored deflate blocks
+fn png_plain(w: u32, h: u32) -> Vec<u8> {
+    let mut raw = vec![];
+    for _ in 0..h { raw.push(0); for _ in 0..w { raw.extend_from_slice(&[0x20, 0x40, 0x60, 0xff]); } }
+    let mut z = vec![0x78, 0x01];
+    let mut chunks = raw.chunks(65535).peekable();
+    while let Some(c) = chunks.next() {
+        z.push(chunks.peek().is_none() as u8);
+        z.extend_from_slice(&(c.len() as u16).to_le_bytes()); z.extend_from_slice(&(!(c.len() as u16)).to_le_bytes()); z.extend_from_slice(c);
+    }
+    z.extend_from_slice(&adler32(&raw).to_be_bytes());
+    let mut out = vec![0x89, b'P', b'N', b'G', 0x0D, 0x0A, 0x1A, 0x0A];
+    let mut ihdr = vec![]; ihdr.extend_from_slice(&w.to_be_bytes()); ihdr.extend_from_slice(&h.to_be_bytes()); ihdr.extend_from_slice(&[8, 6, 0, 0, 0]);
+    png_chunk(&mut out, b"IHDR", &ihdr); png_chunk(&mut out, b"IDAT", &z); png_chunk(&mut out, b"IEND", &[]);
+    out
+}
+
+pub fn eval_anmwide(case: &Sexp) -> Sexp {
+    let a = case.args();
+    let game = tc::game(a[0].as_atom());
+    let (w, h) = (a[1].as_i64() as u32, a[2].as_i64() as u32);
+    let dir = tempfile::tempdir().expect("tempdir");
+    std::fs::write(dir.path().join("t.png"), png_plain(w, h)).expect("write");
+    let text = "entry {\n    path: \"t.png\",\n    has_data: true,\n    img_format: 7,\n    rt_width: 64,\n    rt_height: 64,\n    sprites: {},\n}\nscript s { }\n";
+    let out = tc::with_truth(Format::Anm, game, &[], |truth| {
+        let script = truth.parse::<truth::ast::ScriptFile>("<input>", text.as_bytes())?.value;
+        let compiled = {
+            let mut t = truth.validate_defs()?;
+            let mut compiled = t.compile_anm(game, &script)?;
+            let source = t.read_image_source(game, dir.path())?;
+            let fs = t.fs();
+            compiled.apply_image_source(source, &fs)?;
+            t.finalize_anm(game, compiled)?
+        };
+        write_anm(truth, game, &compiled)
+    });
+    let fits = w <= 0xffff && h <= 0xffff;
+    let bytes = match out.value {
+        Some(b) => b,
+        None => return if !out.has_error_diag() { super::fail("compile-fails-without-error-diagnostic", format!("anm {game}")) }
+            else if fits { super::fail("image-rejected-although-it-fits anm", format!("{game}: {w}x{h}: {}", anm_err_class(&out.diagnostics))) }
+            else { Sexp::app("rejected", vec![Sexp::str(anm_err_class(&out.diagnostics))]) },
+    };
+    let back = tc::with_truth(Format::Anm, game, &[], |truth| read_anm(truth, game, &bytes, true));
+    match back.value {
+        None => super::fail("written-file-unreadable anm", format!("{game}: {}", anm_err_class(&back.diagnostics))),
+        Some(f) => {
+            let e = &f.entries[0];
+            let (gw, gh, n) = (e.img_width().unwrap_or(0), e.img_height().unwrap_or(0), e.img_data().map(|d| d.len()).unwrap_or(0));
+            if (gw, gh) == (w, h) && n == (w * h) as usize && fits { Sexp::app("pass", vec![Sexp::int(bytes.len() as i64)]) }
+            else { super::fail("written-file-differs anm texture-dimension-narrowed", format!("{game}: image file of {w}x{h} stored as {gw}x{gh} with {n} bytes; exit status 0, no diagnostic")) }
+        },
+    }
 }
 
 // ---------------------------------------------------------------------------------------------
@@ -720,7 +808,11 @@ pub fn gen_cases(rng: &mut Rng, scale: usize, for_c16: bool) -> Vec<Case> {
             // the kinds that need a particular header layout
             match wild { Some(1) | Some(3) => { while old_header(game) { game = *rng.pick(GAMES); } }, Some(2) => { while !old_header(game) { game = *rng.pick(GAMES); } }, Some(5) => { game = Game::Th06; }, _ => {} }
             let text = gen_source(rng, game, wild);
-            out.push(Case::search(Sexp::app("anmsrc", vec![Sexp::atom(format!("{game}")), Sexp::str(text)])).tag(match wild { Some(k) => format!("anmsrc-unrepresentable-{k}"), None => "anmsrc".to_string() }));
+            out.push(Case::search(Sexp::app("anmsrc", vec![Sexp::atom(format!("{game}")), Sexp::str(text), Sexp::int(wild.map(|k| k as i64).unwrap_or(-1))])).tag(match wild { Some(k) => format!("anmsrc-unrepresentable-{k}"), None => "anmsrc".to_string() }));
+        }
+        // image files at and beyond the 16-bit THTX fields
+        for (game, w, h) in [(Game::Th08, 65535u32, 1u32), (Game::Th08, 65536, 1), (Game::Th12, 1, 65535), (Game::Th12, 1, 65536), (Game::Th12, 70000, 1), (Game::Th06, 2, 70000)] {
+            out.push(Case::search(Sexp::app("anmwide", vec![Sexp::atom(format!("{game}")), Sexp::int(w as i64), Sexp::int(h as i64)])).tag("anmwide"));
         }
     }
     out
